@@ -90,8 +90,8 @@ def monitor(c, r):
         elif dv.get("ov") in ("running", "finished"):
             out.append(("run-cut-short-reported-%s" % ("succeeded" if dv["ov"] == "finished" else "running"),
                         "point %d (after ops %s): a kill now leaves overall=%r, steps %r" % (k, (r.get("ops") or [])[:k], dv["ov"], dv.get("st"))))
-        for b in (lv.get("bad") or []) + (dv.get("bad") or []):
-            out.append(("start-after-finish", b))
+        # (start <= finish is demanded of the FINAL record only: while a retried step is in its next attempt its record
+        #  shows the new start and still the previous attempt's finish time)
     f = r.get("final")
     if f and not r.get("hang"):
         lv, dv = f["live"], f["dead"]
@@ -236,6 +236,31 @@ def run(chk, replay):
                         k, m[k] if k < len(m) else None, il[k] if k < len(il) else None, json.dumps(c), r.get("ops")))
     if dis == 0:
         chk.oblige("correspondence:agent-live (status-socket answer at every quiescent point and after the run = model's agentStatus + node table)", True)
+    # free-running stress of the FINAL record: nobody holds the executors, the last done-event's status write races with the
+    # final write (write-ordering defect fixed by df2f386): the persisted final status must be the truth
+    if not replay:
+        autos = []
+        for k in range(120 if chk.tier == "quick" else 1200):
+            c = gen_case(rng, 100000 + k, 3); c["auto"] = True; c["id"] = "a%d" % k
+            autos.append(c)
+        ares = run_harness(binp, autos, workers=16)
+        stat["auto_runs"] = 0; stat["auto_final"] = {}
+        for c in autos:
+            r = ares.get(c["id"])
+            if not r or r.get("hang") or r.get("panic"):
+                chk.oblige("harness-run:auto:" + c["id"], False, json.dumps(r)[:400]); continue
+            chk.evaluations += 1; stat["auto_runs"] += 1
+            f = r["final"]; dv = f["dead"]
+            stat["auto_final"][dv.get("ov", "?")] = stat["auto_final"].get(dv.get("ov", "?"), 0) + 1
+            n = len(c["nodes"])
+            anyfail = any((f.get("ended") or {}).get(str(i)) == 2 for i in range(n)) or any(
+                (f.get("ended") or {}).get(str(1000 + h)) == 2 for h in range(4))
+            want = None
+            if all((dv.get("st") or [""] * n)[i] in ("finished", "skipped") for i in range(n)) and not anyfail:
+                want = "finished"
+            if dv.get("ov") in ("running", "not started") or (want and dv.get("ov") != want):
+                chk.violation("C08:finished-run-recorded-%s" % str(dv.get("ov")).replace(" ", "-"),
+                              "free-running run finished (steps %r) but its final record says %r" % (dv.get("st"), dv.get("ov")), {"case": c})
     stat["real"] = real_kills(chk, 6 if chk.tier == "quick" else 40) if not replay else {}
     chk.stats = stat
     chk.samples = [{"nodes": c["nodes"], "ops": results[c["id"]].get("ops")} for c in cases[:2] if c["id"] in results]
